@@ -1328,6 +1328,7 @@ macro_rules! impl_binop_assign {
                         self.data[i].$method(IArray::get_int(rhs, i).unwrap_or(I1::ZERO));
                     }
                 }
+                self.mod2n(self.length);
             }
         }
 
@@ -1349,6 +1350,7 @@ macro_rules! impl_binop_assign {
                 for i in 0..N {
                     self.data[i].$method(IArray::get_int(rhs, i).unwrap_or(I::ZERO));
                 }
+                self.mod2n(self.length);
             }
         }
 
